@@ -326,6 +326,11 @@ class VK:
         """a bounded check that stands in for an undischargeable obligation: labelled, never counted"""
         if s.sym:
             s.bounded.append({"what": f"{s.prefix}/{what}", "bound": bound, "evaluations": evaluations, "ok": bool(ok), "detail": detail})
+            if not ok:
+                # a failing evaluation of the real code is a concrete counterexample: a refuted obligation is recorded
+                # only then (a passing stand-in is never counted as an obligation)
+                s._record(f"{s.prefix}/{what}/counterexample", "refuted", "bounded", time.time(), f"bounded stand-in failed ({bound}): {detail}")
+                s.obl[-1]["replay"] = {"confirmed": True, "kind": "ground", "bounded": True, "point": {"bound": bound, "detail": detail}, "expected": what, "actual": detail}
 
 
 def _cvc5_check(smt2, timeout_ms):
@@ -565,6 +570,9 @@ def load_known_findings():
             if line.startswith("open:"):
                 body = line[5:].strip()
                 head, _, text = body.partition("::")
-                kv = dict(x.split("=", 1) for x in head.split() if "=" in x)
-                out.append({"property": kv.get("property"), "obligation": kv.get("obligation"), "text": text.strip()})
+                head = head.strip()
+                prop, _, rest = head.partition(" obligation=")
+                kv = dict(x.split("=", 1) for x in prop.split() if "=" in x)
+                # the obligation prefix runs to the "::" separator (obligation names may contain blanks)
+                out.append({"property": kv.get("property"), "obligation": rest.strip() or None, "text": text.strip()})
     return out
